@@ -226,6 +226,43 @@ def step (st : Unit) (n : Nat) (ln : Line) : Unit × List String :=
     let made := res.length < ns.length ∨ (res.any fun r => match r with | .manifest _ _ f _ => f ≥ base | _ => false)
     (st, diff n ln model ++ j ++ ["COV mz"] ++ (if made then ["COV mz.new-manifest"] else ["COV mz.none"])
       ++ (if ns.any isManifest then ["COV mz.existing-manifest"] else []))
+  | "mw" =>
+    let (ns, vids) := parseNodes (a.drop 3)
+    let cs := flatten ns
+    let k := tokNat (a.getD 0 "1")
+    let base := tokNat (a.getD 1 "0")
+    let wins := parseWins (a.getD 2 "-")
+    let res := manifestize k base ns
+    let model := nodeToks vids (a.length * 2 + 4) res ++ ["|", s!"ts={advertisedSize ns}:{advertisedSize res}"]
+      ++ wins.map fun (off, len) => "ok:" ++ hexOfNats (streamContent content res off len)
+    -- judges over the IMPLEMENTATION's output: the file keeps its size, and every bounded window of the manifestized file
+    -- delivers the content of the ORIGINAL chunks
+    let o' := (o.dropWhile (· != "|")).drop 1
+    let jsz := if !wellFormed ns ∨ k = 0 then [] else
+      match ((o'.getD 0 "").drop 3).toString.splitOn ":" with
+      | [b, af] => judgeOut n (manifestSizeJudge (tokNat b) (tokNat af)) s!"TotalSize {b} -> {af} after doMaybeManifestize batch {k}"
+      | _ => [specfail n "doMaybeManifestize/error" (toString o)]
+    let jw := if !wellFormed ns then [] else
+      (wins.zip (o'.drop 1)).flatMap fun ((off, len), tok) =>
+        if len = maxInt64 then [] else
+        match tok.splitOn ":" with
+        | ["ok", hex] => judgeOut n (manifestWindowJudge content cs off len (tokBytes hex)) s!"window {off}+{len} after doMaybeManifestize batch {k}"
+        | _ => [specfail n "doMaybeManifestize/window-read-error" s!"window {off}+{len}: {tok}"]
+    -- coverage: a batch whose non-first chunk starts before and ends after all earlier chunks of the batch, read through a
+    -- window that starts behind those earlier chunks (inside the widening chunk)
+    let ds := ns.filterMap nodeChunk
+    let batches := if k = 0 then [] else (List.range (ds.length / k)).map fun i => (ds.drop (i * k)).take k
+    let widen := batches.any fun b => (List.range b.length).any fun j =>
+      match b[j]? with
+      | none => false
+      | some c =>
+        let earlier := b.take j
+        let loE := earlier.foldl (fun m e => min m e.off) maxInt64
+        let hiE := earlier.foldl (fun m e => max m e.stop) 0
+        decide (0 < j ∧ c.off < loE ∧ hiE < c.stop) && wins.any fun (off, len) => decide (0 < len ∧ hiE ≤ off ∧ off < c.stop)
+    (st, diff n ln model ++ jsz ++ jw.take 1 ++ ["COV mw"] ++ (if widen then ["COV mw.widening-chunk-window-past-inner-end"] else [])
+      ++ (if res.any isManifest ∧ wins.any (fun (off, len) => 0 < len ∧ off + len < extent cs) then ["COV mw.partial-window-over-manifest"] else [])
+      ++ (if ns.any isManifest then ["COV mw.existing-manifest"] else []))
   | _ => (st, [s!"DIFF {n} unknown-op {ln.op}"])
 
 def main : IO Unit := run { init := (), step := step }
